@@ -183,6 +183,13 @@ def generate():
         txt, ww, rw = container_facts(*spec)
         parts.append(txt)
         summary[spec[0]] = {"dump_words": ww, "load_words": rw}
+    # how Checked::float_mpq_to_string treats the sign: laid out with the digits (strlen of the signed numeral) or
+    # taken off first (any of mpz_sgn / mpz_abs / mpz_neg in the body)
+    ctxt = strip_comments(read("checked.cc"))
+    fb = body_of(ctxt, r"float_mpq_to_string\s*\(mpq_class&\s*\w+\)\s*\{") or ""
+    sep = bool(re.search(r"\bmpz_(sgn|abs|neg)\s*\(", fb))
+    parts.append("Definition float_print_sign_separate : bool := %s." % ("true" if sep else "false"))
+    summary["float_print_sign_separate"] = sep
     src = "\n".join(parts) + "\n"
     os.makedirs(os.path.dirname(OUT), exist_ok=True)
     old = open(OUT).read() if os.path.exists(OUT) else None
